@@ -28,6 +28,10 @@ NEGATIVE = tuple((1 << 64) - k for k in range(1, 9)) + tuple((1 << 32) - k for k
     ((1 << 32), (1 << 32) + 1, (1 << 31) - 1, (1 << 31) + 1, (1 << 63) - 1, (1 << 63) + 1, 0xfffffffe00000000 | 2)
 
 
+class NoTraceForTheCall(Exception):
+    pass
+
+
 def render_outer(name, start, end, junk=()):
     parser = ev.new_parser()
     out = None
@@ -35,6 +39,8 @@ def render_outer(name, start, end, junk=()):
         t = parser.feed(e)
         if t is not None and t.ktraces[0].eventid == ev.eid(name) and t.ktraces[0].func_qualifier == 1:
             out = str(t)
+    if out is None:
+        raise NoTraceForTheCall(f'{name}: the START..END pair of the call produced no trace that begins with its START')
     return out
 
 
@@ -213,11 +219,17 @@ def scale_windows(res, ctx, rng, names):
         name = rng.choice(names)
         start = domain.gen_words(rng, name, 'S')
         ret = domain.gen_words(rng, name, 'E')[1:]
-        junk = H.window_filler(rng, n - 2)          # the window holds n records, START and END included
         case = {'name': name, 'start': start, 'nested_records': n - 2}
         for end in ([0] + ret, [rng.randrange(1, 107)] + ret):
             try:
-                small, big = render_outer(name, start, end), render_outer(name, start, end, junk)
+                small = render_outer(name, start, end)
+                # the window holds n records, START and END included (H.stretched_events)
+                events, own = H.stretched_events(H.syscall(name, start, end), 1, n, rng)
+                parser, big = ev.new_parser(), None
+                for e in events:
+                    t = parser.feed(e)
+                    if t is not None and id(t.ktraces[0]) in own and t.ktraces[0].func_qualifier == 1:
+                        big = str(t)
             except Exception as x:
                 res.violation(f'c10-raises-{core.exc_name(x)}', f'{name} with {n} nested records: {x!r}', case)
                 return
@@ -231,6 +243,8 @@ def scale_windows(res, ctx, rng, names):
 
 def run(ctx):
     res = core.Result()
+    import random
+    H.set_clock(random.Random(ctx.seed * 7919 + ctx.shard))      # coarse / jittered time base: file order is the order
     rng = ctx.rng
     inv = H.inventory()
     for i, name in enumerate(inv['bsd']):
